@@ -60,6 +60,10 @@ pub struct Enc {
     pub spans: Vec<Span>,
     /// compact: always use the long field-header form (legal alternative encoding)
     pub long_form: bool,
+    /// compact: write some varints wider than necessary (continuation bytes carrying zero bits, never beyond
+    /// the width the reader accepts for the type): 0 = never, n = about one varint value in n. Which values
+    /// are widened, and by how much, depends on the value alone, so a sub-value encodes the same at any position.
+    pub pad: u8,
     last_id: i16,
     stack: Vec<i16>,
     depth: u16,
@@ -83,6 +87,39 @@ pub fn put_uvarint(out: &mut Vec<u8>, mut v: u64) {
     }
 }
 
+/// Encoding style of the reference encoder: legal alternatives to the canonical compact encoding.
+#[derive(Clone, Copy, Debug, Default)]
+pub struct Style {
+    pub long_form: bool,
+    pub pad: u8,
+}
+
+impl Style {
+    pub fn new(long_form: bool, padsel: u64) -> Style {
+        Style { long_form, pad: match padsel { 0 => 1, 1 => 3, 2 => 7, _ => 0 } }
+    }
+}
+
+pub fn put_uvarint_padded(out: &mut Vec<u8>, v: u64, max: usize, pad: u8) {
+    let start = out.len();
+    put_uvarint(out, v);
+    if pad == 0 {
+        return;
+    }
+    let natural = out.len() - start;
+    let h = (v ^ 0x5851_F42D_4C95_7F2D).wrapping_mul(0x9E37_79B9_7F4A_7C15) >> 40;
+    if natural >= max || h % pad as u64 != 0 {
+        return;
+    }
+    let extra = 1 + ((h >> 8) as usize % (max - natural));
+    let last = out.len() - 1;
+    out[last] |= 0x80;
+    for _ in 1..extra {
+        out.push(0x80);
+    }
+    out.push(0x00);
+}
+
 fn compact_type(t: u8) -> u8 {
     match t {
         T_STOP => 0,
@@ -104,7 +141,16 @@ fn compact_type(t: u8) -> u8 {
 
 impl Enc {
     pub fn new(proto: Proto) -> Self {
-        Enc { proto, out: vec![], spans: vec![], long_form: false, last_id: 0, stack: vec![], depth: 0, record_spans: true }
+        Enc { proto, out: vec![], spans: vec![], long_form: false, pad: 0, last_id: 0, stack: vec![], depth: 0, record_spans: true }
+    }
+
+    pub fn style(&mut self, st: Style) {
+        self.long_form = st.long_form;
+        self.pad = st.pad;
+    }
+
+    fn uv(&mut self, v: u64, max: usize) {
+        put_uvarint_padded(&mut self.out, v, max, self.pad);
     }
 
     fn span(&mut self, start: usize, kind: SpanKind) {
@@ -153,9 +199,9 @@ impl Enc {
             Proto::Compact => {
                 self.out.push(0x82);
                 self.out.push((mtype << 5) | 1);
-                put_uvarint(&mut self.out, seq as u32 as u64);
+                self.uv(seq as u32 as u64, 5);
                 let s = self.out.len();
-                put_uvarint(&mut self.out, name.len() as u64);
+                self.uv(name.len() as u64, 5);
                 self.span(s, SpanKind::Len);
                 let s = self.out.len();
                 self.out.extend_from_slice(name);
@@ -172,15 +218,15 @@ impl Enc {
             },
             TV::I8(x) => self.out.push(*x as u8),
             TV::I16(x) => match self.proto {
-                Proto::Compact => put_uvarint(&mut self.out, zigzag32(*x as i32) as u64),
+                Proto::Compact => self.uv(zigzag32(*x as i32) as u64, 3),
                 _ => self.i16_fixed(*x),
             },
             TV::I32(x) => match self.proto {
-                Proto::Compact => put_uvarint(&mut self.out, zigzag32(*x) as u64),
+                Proto::Compact => self.uv(zigzag32(*x) as u64, 5),
                 _ => self.i32_fixed(*x),
             },
             TV::I64(x) => match self.proto {
-                Proto::Compact => put_uvarint(&mut self.out, zigzag64(*x)),
+                Proto::Compact => self.uv(zigzag64(*x), 10),
                 _ => self.i64_fixed(*x),
             },
             TV::Double(bits) => match self.proto {
@@ -191,7 +237,7 @@ impl Enc {
             TV::Binary(b) => {
                 let s = self.out.len();
                 match self.proto {
-                    Proto::Compact => put_uvarint(&mut self.out, b.len() as u64),
+                    Proto::Compact => self.uv(b.len() as u64, 5),
                     _ => self.i32_fixed(b.len() as i32),
                 }
                 self.span(s, SpanKind::Len);
@@ -213,7 +259,7 @@ impl Enc {
                 match self.proto {
                     Proto::Compact => {
                         let s = self.out.len();
-                        put_uvarint(&mut self.out, kv.len() as u64);
+                        self.uv(kv.len() as u64, 5);
                         self.span(s, SpanKind::Count);
                         if !kv.is_empty() {
                             let s = self.out.len();
@@ -253,7 +299,7 @@ impl Enc {
                     self.out.push(0xF0 | compact_type(t));
                     self.span(s, SpanKind::Type);
                     let s = self.out.len();
-                    put_uvarint(&mut self.out, n as u64);
+                    self.uv(n as u64, 5);
                     self.span(s, SpanKind::Count);
                 }
             }
@@ -300,7 +346,7 @@ impl Enc {
                     self.out.push(ct);
                     self.span(s, SpanKind::Type);
                     let s = self.out.len();
-                    put_uvarint(&mut self.out, zigzag32(id as i32) as u64);
+                    self.uv(zigzag32(id as i32) as u64, 3);
                     self.span(s, SpanKind::FieldId);
                 }
                 self.last_id = id;
@@ -321,17 +367,17 @@ impl Enc {
     }
 }
 
-pub fn encode_value(proto: Proto, v: &TV, long_form: bool) -> Enc {
+pub fn encode_value(proto: Proto, v: &TV, long_form: Style) -> Enc {
     let mut e = Enc::new(proto);
-    e.long_form = long_form;
+    e.style(long_form);
     e.value(v);
     e
 }
 
 /// Encode a value without recording spans (cheap length computation).
-pub fn encoded_len(proto: Proto, v: &TV, long_form: bool) -> usize {
+pub fn encoded_len(proto: Proto, v: &TV, long_form: Style) -> usize {
     let mut e = Enc::new(proto);
-    e.long_form = long_form;
+    e.style(long_form);
     e.record_spans = false;
     e.value(v);
     e.out.len()
